@@ -30,7 +30,7 @@ RULE = ("allocsafe4: addmul_ui/submul_ui/addmul/submul with every sign combinati
         "aorsmul_i.c:169, products with a zero top limb, one-limb multiplier in either position, all five alias modes, destination allocation "
         "exact / need-1 / need / generous")
 
-PINS = [("mpz/aorsmul_i.c", None), ("mpz/aorsmul.c", None), ("mpz/mul.c", None)]
+PINS = [("mpz/aorsmul_i.c", None), ("mpz/aorsmul.c", None), ("mpz/mul.c", None), ("mpz/tdiv_q.c", None), ("mpz/tdiv_r.c", None)]
 
 def nl(x): return (abs(x).bit_length() + 63) // 64
 
@@ -136,14 +136,42 @@ def gen_mul(rng):
         return "%x %s" % (max(n, rng.choice([n, need - 1, need, need + 2, n + 1])), hx(v))
     return "as4_mul %x %s %s %s" % (m, obj(rng, w, need), big(x), big(y))
 
+def gen_div(rng, name):
+    """mpz_tdiv_q / mpz_tdiv_r: numerator shorter than / as long as / longer than the denominator, quotient with a zero top limb,
+    exact multiples (remainder 0), remainder with high zero limbs, d = 0, every alias mode (the output is the numerator, the denominator,
+    both), destination allocation below / at / above ql resp. dl"""
+    c = rng.randrange(12)
+    kd = rng.randrange(1, 5); kq = rng.randrange(1, 5)
+    d = special(rng, kd) or 1; q = special(rng, kq)
+    if c == 0: n = q * d                                              # exact
+    elif c == 1: n = q * d + rng.randrange(0, d)                      # any remainder
+    elif c == 2: n = q * d + rng.randrange(0, min(d, B))              # remainder with high zero limbs
+    elif c == 3: n = special(rng, rng.randrange(1, kd + 1))           # n shorter or as long as d
+    elif c == 4: n = d                                                # quotient 1
+    elif c == 5: n = d - 1 if d > 1 else 1
+    elif c == 6: d = 0; n = q
+    elif c == 7: n = B ** (kd + kq - 1); d = B ** kd - 1              # top quotient limb zero / non-zero boundary
+    elif c == 8: n = (B ** kq - 1) * d + d - 1                        # all-ones quotient, maximal remainder
+    elif c == 9: n = 0
+    elif c == 10: n = special(rng, kd + kq)
+    else: n = abs(rand_int(rng, 6)); d = abs(rand_int(rng, 4))
+    n = sgnd(rng, n); d = sgnd(rng, d)
+    m = rng.choice([0, 0, 0, 1, 1, 2, 2, 3, 4])
+    if m >= 3: d = n
+    need = max(nl(n) - nl(d) + 1, 1) if name == "as4_tdiv_q" else max(nl(d), 1)
+    w = sgnd(rng, special(rng, rng.randrange(1, 4)))
+    return "%s %x %s %s %s" % (name, m, obj(rng, w, need), obj(rng, n, need), obj(rng, d, need))
+
 def gen_ops(rng, tier, ctx=None):
-    n = 1200 if tier == "quick" else 12000
+    n = 1000 if tier == "quick" else 12000
     for _ in range(n):
         yield gen_ui(rng, "as4_addmul_ui")
         yield gen_ui(rng, "as4_submul_ui")
         yield gen_mm(rng, "as4_addmul")
         yield gen_mm(rng, "as4_submul")
         yield gen_mul(rng)
+        yield gen_div(rng, "as4_tdiv_q")
+        yield gen_div(rng, "as4_tdiv_r")
 
 def nontrivial(line):
     return line if line.startswith("as4_") else None
